@@ -377,5 +377,33 @@ PROPS["C17"] = {
     "assumptions": ["'at least once per h seconds' holds up to the timer latency delta (C17_prompt's delta)"],
 }
 
+
+PROPS["C01"] = {
+    "check_mods": ["C01", "C01core"],
+    "model_out": "model_out",
+    "drivers": [{"name": "c01", "n_quick": 160, "n_thorough": 6000, "timeout": 3000},
+                {"name": "c01core", "n_quick": 400, "n_thorough": 16000}],
+    "rule": "end to end (c01): a real connection over the mock transport whose write() follows a random script "
+            "of 50-4000 steps {would-block, 1-7 bytes, 8-300 bytes, up to 6000 bytes} from the very first "
+            "byte (the protocol header included), writable re-signalled every 0.3 ms; 1-3 client threads each "
+            "owning 1-2 channels issue 3-25 operations (nowait declares, purge, ack_all, publishes with "
+            "bodies 0 / limit / limit+1 / 2 limit+5 / 1-900 bytes at frame_max 4096), each logging the "
+            "frames it issued; then Connection::close. The wire is split by the harness's own envelope "
+            "splitter. Thread level (c01core): 1-4 channels, whole buffers into the mailboxes, channel "
+            "events in any order, writes in pieces of 1 .. all bytes blocking anywhere. non-trivial = every "
+            "scenario; distinct = distinct case term.",
+    "explanation": "C01_write_conserves / C01_trace_conserves / C01_whole_frames / C01_mailbox_fifo / "
+                   "C01_write_interest. End to end: exactly the 8-byte header, then whole frames only with "
+                   "nothing left over, every channel's frames exactly those its owner issued, in issue "
+                   "order, none lost or duplicated, and the run finishes (no data left with nobody to wake "
+                   "the thread: a hang is reported). Thread level: every step equals the model; bytes "
+                   "written + buffered = bytes taken from the mailboxes at every step.",
+    "trusted_base": L2_TRUSTED + CORE_TRUSTED + ["std mpsc / mio-extras channels hand buffers over atomically and in FIFO order"],
+    "assumptions": ["thread interleavings are those the OS scheduler produced in this run (1-3 threads, 8 "
+                    "scenarios at a time on 16 cores); the theorems cover every order of whole-buffer hand-overs",
+                    "io::Write::write returns 1 <= n <= len on success (a transport returning Ok(0) forever "
+                    "would spin the write loop)"],
+}
+
 # properties not claimed, with the reason (kept current)
 NOT_APPLICABLE = {}
